@@ -156,6 +156,17 @@ var pureItems = []pureItem{
 		abstract: map[string]abstr{"st.lastMatch": {"lastMatch", "int64"}, "head.Sums[i].Len": {"sumLen", "int64"}},
 		drop:     []string{"if err := st.sendToken(", "for j := int64(0); j < n; j += chunkSize"},
 		results:  []string{"n", "lastMatch"}},
+	// token.go simpleSendToken: the literal run cut into chunks, then the token; writes go to a log
+	{name: "sendToken", file: "internal/sender/token.go", fn: "simpleSendToken",
+		from: "if n > 0", to: "if token != -2",
+		params:   []pvar{{"token", "int32"}, {"offset", "int64"}, {"n", "int64"}, {"file", "[]byte"}, {"out", "[]out"}},
+		fuel:     []string{"n.toNat"},
+		abstract: map[string]abstr{"ms.ptr(offset+l, int32(n1))": {"(Go.fileSlice file (offset + l) n1)", "[]byte"}},
+		replace: map[string]repl{
+			"if err := st.Conn.WriteInt32(int32(n1))":  {"let out := out ++ [Go.Out.i32 (Int32.ofInt n1)];", []string{"out"}},
+			"if _, err := st.Conn.Writer.Write(chunk)": {"let out := out ++ [Go.Out.bytes chunk];", []string{"out"}},
+			"return st.Conn.WriteInt32(-(token + 1))":  {"let out := out ++ [Go.Out.i32 (-(token + 1))];", []string{"out"}}},
+		results: []string{"out"}},
 	// wire: multiplex frame header, and its decoding
 	{name: "muxHeader", file: "internal/rsyncwire/wire.go", fn: "WriteMsg",
 		from: "header := uint32(mplexBase+tag)<<24 | uint32(len(p))", to: "header := uint32(mplexBase+tag)<<24 | uint32(len(p))",
@@ -204,7 +215,7 @@ func pureIdent(s string) string {
 var leanTypes = map[string]string{
 	"uint8": "UInt8", "byte": "UInt8", "uint16": "UInt16", "uint32": "UInt32", "uint64": "UInt64",
 	"int8": "Int8", "int16": "Int16", "int32": "Int32", "int": "Int", "int64": "Int",
-	"bool": "Bool", "[]byte": "List UInt8",
+	"bool": "Bool", "[]byte": "List UInt8", "[]out": "List Go.Out",
 }
 
 func isFixed(t string) bool {
@@ -1041,7 +1052,11 @@ func (p *ptr) stmts(list []ast.Stmt, k func() string, w *strings.Builder) {
 		var bs binds
 		if len(v.Lhs) == 2 && len(v.Rhs) == 1 {
 			if id, ok := v.Lhs[1].(*ast.Ident); ok && (id.Name == "err" || id.Name == "_") {
-				if _, isSeq := p.it.seq[p.r.src(v.Rhs[0])]; isSeq {
+				_, isSeq := p.it.seq[p.r.src(v.Rhs[0])]
+				if _, isAbs := p.it.abstract[p.r.src(v.Rhs[0])]; isAbs {
+					isSeq = true
+				}
+				if isSeq {
 					v = &ast.AssignStmt{Lhs: v.Lhs[:1], Tok: v.Tok, Rhs: v.Rhs}
 					if v.Tok == token.DEFINE && p.inEnv(p.lhsBase(v.Lhs[0])) {
 						v.Tok = token.ASSIGN
@@ -1333,13 +1348,19 @@ func (p *ptr) forStmt(v *ast.ForStmt, rest []ast.Stmt, k func() string, w *strin
 	if !p.monadic {
 		p.failf("internal: loop in a definition classified as pure")
 	}
-	bad := false
+	bad := p.containsReturn(v.Body)
 	ast.Inspect(v.Body, func(n ast.Node) bool {
-		switch x := n.(type) {
-		case *ast.ReturnStmt:
-			bad = true
-		case *ast.BranchStmt:
-			_ = x
+		if st, ok := n.(ast.Stmt); ok {
+			for k := range p.it.replace {
+				if strings.HasPrefix(p.r.src(st), k) {
+					return false
+				}
+			}
+		}
+		if i, ok := n.(*ast.IfStmt); ok && p.r.src(i.Cond) == "err != nil" {
+			return false
+		}
+		if _, ok := n.(*ast.BranchStmt); ok {
 			bad = true
 		}
 		return !bad
